@@ -268,6 +268,23 @@ theorem substr_eq {s : Str} {cs : List Nat} (h : Rep s cs) (pos count : Nat) (hp
 
 example : (3 : Nat) ≤ [1, 2, 3].length := by decide
 
+/-- `compare(pos, count, str)`, `compare(pos, count, s)`, `compare(pos, count, s, count2)` for `pos <= size()`: the
+    clamp `count > size() - pos ? size() : count` followed by `substr` selects exactly `substr(pos, count)`, and
+    the result is the lexicographic order against the argument. -/
+theorem compare_pos_count_eq (h : Units) (pos count : Nat) (v : Units) (hp : pos ≤ h.length) :
+    compare3 h pos count v = .ok (C08.Spec.cmp (Spec.substr h pos count) v) := compare3_eq h pos count v hp
+
+example : (1 : Nat) ≤ [97, 98].length := by decide
+
+/-- `compare(pos1, count1, str, pos2, count2)` (second clamp repaired: `str.size()`): both substrings are the std ones. -/
+theorem compare_pos_count_pos_count_eq (h : Units) (pos1 count1 : Nat) (v : Units) (pos2 count2 : Nat)
+    (hp1 : pos1 ≤ h.length) (hp2 : pos2 ≤ v.length) :
+    compare5 h pos1 count1 v pos2 count2
+      = .ok (C08.Spec.cmp (Spec.substr h pos1 count1) (Spec.substr v pos2 count2)) :=
+  compare5_eq h pos1 count1 v pos2 count2 hp1 hp2
+
+example : (0 : Nat) ≤ ([] : List Nat).length ∧ (1 : Nat) ≤ [0].length := by decide
+
 /-! ### known findings: the failing inputs, kernel-checked on the model -/
 
 /-- F-C04-rfind-default-pos: `rfind` called without `pos` uses the header's default 0; std's default is npos.
